@@ -64,6 +64,7 @@ def run(ctx, repo, tier):
             ctx.violate("COEF", f"C15.equalshare.{d}d", f"equal-share estimate for {d}D tiny grids is not {txt} per cell (N cells)", gv.where,
                         "np.array([.../self.N_points]*self.N_points)", witness=f"derived {got}")
     voro.dispatch_model(ctx, repo, "C15")
+    voro.volumes_exact_3d(ctx, repo, "C15")
     # ------------------------------------------------------------ hull estimate
     ci = repo.cls(VO, "RotobjVoronoi")
     av = repo.cls(VO, "AbstractVoronoi")
